@@ -127,7 +127,6 @@ pub open spec fn cow_str_bytes<'a>(c: Cow<'a, str>) -> Seq<u8> { encode_utf8(c@)
 //@rewrite bytes.iter() ==> shim_e::ByteIter::new(bytes)
 //@rewrite iter.position(|&b| escape_chars(b)) ==> iter.position(|b: u8| escape_chars(b))
 //@rewrite String::from_utf8(escaped).unwrap() ==> shim_e::string_from_utf8_unwrap(escaped)
-//@rewrite unreachable!( "Only '<', '>','\', '&', '\"', '\\t', '\\r', '\\n', and ' ' are escaped" ) ==> unreachable!()
  pub(crate) fn _escape<'a, F: Fn(u8) -> bool>(
     raw: Cow<'a, str>,
     escape_chars: F,
